@@ -51,7 +51,7 @@ def run(tier, seed, rep):
         rep.add_model(name, res, consts)
     evs = [e for e in evs if e.get("op") != "panic"]      # PANIC_FILTER: statistics only (panic events were judged by TLC above)
     rep.cov["programs"] = len(defs) - len(failed)
-    rep.cov["evaluations"] = sum(len(e["m"]) for e in evs if e["op"] == "is") + sum(1 for e in evs if e["op"] == "tryas")
+    rep.cov["evaluations"] = sum(len(e["m"]) + len(e["d"]) for e in evs if e["op"] == "is") + sum(1 for e in evs if e["op"] == "tryas")
     rep.cov["distinct_nontrivial"] = len({(e["def"], e["i"], e.get("j"), e.get("mode")) for e in evs})
     rep.cov["rule"] = ("enums of 1..6 variants x kinds x 0..3 tuple fields (distinct types, and the same type with distinct values) x generics "
                        "and lifetimes x identifiers with digits/acronyms; method names come from the specification (IsName/TryAsName), so a "
